@@ -29,11 +29,14 @@ def weave_planner(u, SERVES=SERVES):
             ('C08 C07:plan-equals-classical-clock',
              'exists|it: _| #![trigger call_ensures(core::iter::IntoIterator::into_iter, (entries,), it)]\n'
              '        call_ensures(core::iter::IntoIterator::into_iter, (entries,), it)\n'
-             '        && (vstd::std_specs::iter::IteratorSpec::obeys_prophetic_iter_laws(&it) ==>\n'
+             '        && (vstd::std_specs::iter::IteratorSpec::obeys_prophetic_iter_laws(&it) && vstd::std_specs::iter::IteratorSpec::remaining(&it).len() <= usize::MAX ==>\n'
              '            plan_is_second_chance(vstd::std_specs::iter::IteratorSpec::remaining(&it), capacity as nat, %s, %s, r.to_evict@, r.to_move_back@))'
              % (KEY, ACC)),
         ])
     new.body_start('broadcast use axiom_range_usize;')
+    n18 = new.rebind_size_hint()
+    if n18:
+        u.dropped.append('T18: %d call(s) `x.size_hint()` spelled `kv_size_hint(&x)` (stand-in with the assumed contract of Iterator::size_hint)' % n18)
     # ghost snapshot of the collected input
     new.insert_after('collect ( ) ;', '\n        let ghost s0 = sorted_entries@;')
     # the sort key closure: say what it returns (any of the by-key sorts; same assumed contract).
